@@ -13,7 +13,8 @@
 (* && and || are enumerated over UNORDERED pairs of distinct operands; the  *)
 (* invariant Algebra checks on every enumerated expression that the operand *)
 (* order cannot matter (and De Morgan, double negation), and the parameter  *)
-(* flip decides the order in which operands are written.                    *)
+(* flip decides the order in which operands are written.  "!!x" is not Go   *)
+(* syntax: negation is applied to tags and to binary expressions only.      *)
 (*                                                                         *)
 (* Params (c18_params.json, written by the harness):                        *)
 (*   voc       sequence of tags (the vocabulary)                            *)
